@@ -696,6 +696,14 @@ func init() {
 					}
 				}
 			}
+			// the result belongs to the caller: writing into every map and list of it must not show in a later conversion of
+			// the same Go value (no storage is shared between results)
+			c20Poison(got)
+			if why := cmpExp(data.NewWith(opts, v), want, "$"); why != "" {
+				return fw.Result{Verdict: fw.Violated, Key: "conversion-results-share-storage", Case: fw.Trim(desc, 600),
+					Msg: "after writing into the maps and lists of an earlier result, converting the same Go value again gives: " + why}
+			}
+			got = data.NewWith(opts, v)
 			// converting again changes nothing
 			again := data.NewWith(opts, got)
 			if why := cmpExp(again, want, "$"); why != "" {
@@ -729,6 +737,22 @@ func init() {
 		},
 		Assumptions: []string{"uint values above MaxInt64 are outside the statement (not representable) and not generated", "a nil slice may convert to an empty list or to null"},
 	})
+}
+
+// c20Poison writes into every map and list reachable from v.
+func c20Poison(v data.Value) {
+	switch v := v.(type) {
+	case data.Map:
+		for _, x := range v {
+			c20Poison(x)
+		}
+		v["__written_by_the_caller"] = data.Int(1)
+	case data.List:
+		for i, x := range v {
+			c20Poison(x)
+			v[i] = data.String("overwritten by the caller")
+		}
+	}
 }
 
 func safeString(v data.Value) (s string) {
